@@ -121,6 +121,7 @@ func corpusFor(c *Ctx) []*corpus.Program {
 		progs = append(progs, corpus.FG(3, 2, 0, 2, 1)...)
 		progs = append(progs, corpus.FG(2, 3, 2, 2, 2)...)
 		progs = append(progs, corpus.FW()...)
+		progs = append(progs, corpus.FS()...)
 	} else {
 		progs = append(progs, corpus.F1(1, 1, true, false)...)
 		progs = append(progs, corpus.F1(2, 2, true, false)...)
@@ -134,6 +135,7 @@ func corpusFor(c *Ctx) []*corpus.Program {
 		progs = append(progs, corpus.FG(3, 2, 2, 2, 2)...)
 		progs = append(progs, corpus.FG(3, 2, 0, 0, 4)...)
 		progs = append(progs, corpus.FW()...)
+		progs = append(progs, corpus.FS()...)
 	}
 	if v := os.Getenv("VERIF_CORPUS_MATCH"); v != "" { // debugging aid: only programs whose description contains v
 		var sel []*corpus.Program
